@@ -61,16 +61,30 @@ func c25Inject(rt *rapid.T, front, s, label string) string {
 }
 
 func TestC25(t *testing.T) {
-	rec := ev.New("C25", "requests with hostile bytes (SP, HTAB, CR, LF, NUL, ':', 0x7f, non-ASCII, CRLF+field, CRLF CRLF+request) placed in method, target, authority, header names or values are sent over HTTP/1.1, HTTP/2 (x/net framer+hpack over TLS) and SPDY/3.1 to an in-process BFE; the bytes every harness backend connection received are parsed by a strict RFC 7230 parser. non-trivial: a client-controlled token contains a byte outside token/field-vchar; distinct by frontend+request")
-	w := startWorld(t, 1, sys.Options{}, func(ports []int) *sys.DataConf {
+	rec := ev.New("C25", "requests with hostile bytes (SP, HTAB, CR, LF, NUL, ':', 0x7f, non-ASCII, CRLF+field, CRLF CRLF+request) placed in method, target, authority, header names or values are sent over HTTP/1.1, HTTP/2 (x/net framer+hpack over TLS) and SPDY/3.1 to an in-process BFE; the bytes every harness backend connection received are parsed by a strict RFC 7230 parser. History modes on a cluster with backend keep-alive: an upload answered early by the backend and then aborted/stalled by its client (RST, FIN, stall; Content-Length or chunked framing) followed by other clients' requests, and 4..16 concurrent requests with 4..24 distinctive fields each; every element of the byte stream of every backend connection must be one issued request with its own method, fields and body (a truncated one must be a prefix of its own client's bytes). non-trivial: a client-controlled token contains a byte outside token/field-vchar; distinct by frontend+request")
+	w := startWorld(t, 2, sys.Options{}, func(ports []int) *sys.DataConf {
 		cl := sys.OneBackendCluster("c", ports[0])
 		cl.TimeoutResponseHeaderMs = 1500
 		cl.RetryMax = 0
-		return sys.SimpleConf("v0", []sys.Cluster{cl}, nil)
+		// second cluster: backend keep-alive on (BFE's default of 2 idle connections per backend),
+		// used by the history modes
+		ck := sys.OneBackendCluster("cka", ports[1])
+		ck.TimeoutResponseHeaderMs = 1500
+		ck.RetryMax = 0
+		ck.MaxIdleConnsPerHost = 2
+		return sys.SimpleConf("v0", []sys.Cluster{cl, ck}, []sys.Rule{
+			{Cond: `req_path_prefix_in("/c25k/", false)`, Cluster: "cka"},
+			{Cond: `default_t()`, Cluster: "c"},
+		})
 	})
+	ka := &c25KA{off: map[*sys.BackendConn]int{}}
 	n := 0
 	rapid.Check(t, func(rt *rapid.T) {
 		n++
+		if mode := rapid.SampledFrom([]string{"single", "single", "single", "single", "single", "single", "aborted-upload", "concurrent"}).Draw(rt, "mode"); mode != "single" {
+			c25Sequence(rt, rec, w, n, mode, ka)
+			return
+		}
 		front := rapid.SampledFrom([]string{"h1", "h2", "spdy"}).Draw(rt, "frontend")
 		base := fmt.Sprintf("/c25/%d", n)
 		method := rapid.SampledFrom([]string{"GET", "POST", "PUT", "DELETE", "OPTIONS", "PURGE"}).Draw(rt, "method")
